@@ -126,6 +126,9 @@ Proof.
     + cbn [orb]. destruct (negb (memN (kw_wd w) R)); now rewrite IHl.
 Qed.
 
+Lemma filter_tt {A} (l : list A) : filter (fun _ => true) l = l.
+Proof. induction l as [|a l IH]; simpl; [reflexivity | now rewrite IH]. Qed.
+
 Lemma memN_out x l : memN x l = true -> In x l.
 Proof.
   induction l as [|y l IH]; simpl; [discriminate|]. intros H. apply orb_true_iff in H as [H|H];
@@ -297,3 +300,190 @@ Section PendSrc.
       + right. right. exists e', p. split; [now right | exact X].
   Qed.
 End PendSrc.
+
+(* ------------------------------------------------------------------ one world against its normal form *)
+Section World.
+  Variable C : cfg.
+  Let M := c_mask C.
+
+  (* what holds of every drained state of a world (proved to be kept) *)
+  Record wi (r : rstate) (k : kst) : Prop := {
+    wi_jk : jk k;
+    wi_mask : allmask M k;
+    wi_cookie0 : 0 < k_next_cookie k;
+    wi_pend : forall c p, pend r = Some (c, p) -> c < k_next_cookie k }.
+
+  (* the reader's tables mention live watches only (a consequence of C02's cover invariant; a hypothesis here) *)
+  Definition tidy (r : rstate) (k : kst) : Prop :=
+    (forall wd, In wd (map fst (pfw r)) -> In wd (wds k)) /\ (forall wd, In wd (map snd (wfp r)) -> In wd (wds k)).
+
+  Lemma map_remask_id l : (forall w, In w l -> kw_mask w = M) -> map (remask M) l = l.
+  Proof.
+    induction l as [|w l IH]; intros H; [reflexivity|]. cbn [map]. rewrite IH by (intros x Hx; apply H; now right).
+    f_equal. unfold remask. rewrite <- (H w (or_introl eq_refl)). destruct w; reflexivity.
+  Qed.
+
+  Lemma ksame_intro k1 k2 :
+    k_watches k2 = k_watches k1 -> allmask M k1 -> k_next_wd k2 = k_next_wd k1 -> k_next_cookie k2 = k_next_cookie k1 ->
+    ksame C k1 k2.
+  Proof.
+    intros W A N1 N2. constructor; [|exact A | exact N1 | exact N2]. rewrite W. symmetry. apply map_remask_id. exact A.
+  Qed.
+
+  Lemma ksame_watches k1 k2 : ksame C k1 k2 ->
+    k_watches k2 = k_watches k1 /\ k_next_wd k2 = k_next_wd k1 /\ k_next_cookie k2 = k_next_cookie k1.
+  Proof.
+    intros [W A N1 N2]. split; [|split; assumption]. rewrite W. apply map_remask_id. exact A.
+  Qed.
+
+  Section Step.
+    Variables (t t' : fs) (o : op) (r : rstate) (k : kst).
+    Hypothesis HW : wi r k.
+    Hypothesis HT : tidy (fst (nform C r k)) (snd (nform C r k)).
+    Let rn := fst (nform C r k).
+    Let kn := snd (nform C r k).
+    Let k' := kernel_op k t o.
+    Let kn' := kernel_op kn t o.
+    Let Wl := wds kn.
+    Let inW := fun wd => memN wd Wl.
+    Let dead := fun wd => negb (inW wd) && N.ltb wd (k_next_wd k).
+
+    Lemma rn_idle : pending_of C rn = false.
+    Proof. apply settle_now_not_pending. Qed.
+
+    (* the normal kernel is the kernel without its dead watches, with an empty queue *)
+    Lemma norm_kext : kext inW k kn /\ kqx inW k kn.
+    Proof.
+      destruct (settle_now_watches C r) as [R HR]. destruct (HR k) as [A [B D]].
+      destruct HW as [[[Hi [Hd Hb]] [[J1 J2] J3]] Hm H0 Hp].
+      assert (Wkn : k_watches kn = filter (fun w => negb (memN (kw_wd w) R)) (k_watches k)) by exact A.
+      split.
+      - constructor; [|exact B | exact D | exact Hi].
+        rewrite Wkn. unfold inW, Wl, wds. rewrite Wkn. apply filter_R_inW. tauto.
+      - unfold kqx. change (k_queue kn) with (@nil kraw).
+        rewrite (filter_nil (live inW) (k_queue k)); [reflexivity|].
+        intros x Hx. destruct (J2 x Hx) as [_ Hn]. unfold live, inW. destruct (memN (k_wd x) Wl) eqn:E; [|reflexivity].
+        exfalso. apply Hn. apply memN_out in E. unfold Wl, wds in E. rewrite Wkn in E.
+        apply in_map_iff in E as [w [<- Hw]]. apply filter_In in Hw as [Hw _]. unfold wds. now apply in_map.
+    Qed.
+
+    (* the records of the operation: over junk, nothing coalesces; what the normal kernel queues is the live part *)
+    Lemma norm_queue :
+      NoDup (map kkey (k_queue k')) /\ k_queue kn' = filter (live inW) (k_queue k') /\ kext inW k' kn' /\
+      (forall x, In x (k_queue k') -> k_wd x < k_next_wd k) /\
+      (forall x, In x (k_queue k') -> matching C r x = false) /\
+      (forall x, In x (k_queue k) -> quiet C x).
+    Proof.
+      destruct norm_kext as [X Q]. destruct (kernel_op_ext inW k kn t o X Q) as [X' Q']. fold k' kn' in X', Q'.
+      destruct HW as [[[Hi [Hd Hb]] [[J1 J2] J3]] Hm H0 Hp].
+      destruct (kernel_op_new k t o) as [g [Eg [Ng Kg]]]. fold k' in Eg.
+      assert (ND : NoDup (map kkey (k_queue k'))).
+      { rewrite Eg. apply (nodup_over_junk (wds k)); [split; assumption | exact Kg|].
+        intros y Hy _. rewrite Forall_forall in Ng. apply (nr_wd _ _ _ (Ng y Hy)). }
+      split; [exact ND|]. split.
+      { unfold kqx in Q'. rewrite Q'. apply kcollapse_keys. apply NoDup_key_filter. exact ND. }
+      split; [exact X'|]. split; [|split].
+      - intros x Hx. rewrite Eg in Hx. apply in_app_or in Hx as [Hx|Hx]; [apply (J3 x Hx)|].
+        rewrite Forall_forall in Ng. pose proof (nr_wd _ _ _ (Ng x Hx)) as Hin. unfold wds in Hin.
+        apply in_map_iff in Hin as [w [<- Hw]]. apply Hb. exact Hw.
+      - intros x Hx. destruct (pend r) as [[c p]|] eqn:Ep.
+        2:{ apply matching_idle. unfold pending_of. rewrite Ep. apply andb_false_r. }
+        rewrite Eg in Hx. apply in_app_or in Hx as [Hx|Hx].
+        + apply matching_not_to. destruct (J2 x Hx) as [Hm' _]. rewrite Hm'. reflexivity.
+        + destruct (is_moved_to (k_mask x)) eqn:Et; [|now apply matching_not_to].
+          rewrite Forall_forall in Ng. pose proof (nr_to _ _ _ (Ng x Hx) Et) as Hc.
+          eapply matching_cookie; [exact Ep|]. specialize (Hp c p eq_refl). lia.
+      - intros x Hx. destruct (J2 x Hx) as [Hm' _]. unfold quiet. rewrite Hm'. split; [apply sets_pend_not_from|]; reflexivity.
+    Qed.
+
+    (* the starting states of the two reads are skewed in the sense of C11_inert *)
+    Lemma norm_inv : inv C dead (k_queue k') r (kdrained k') rn (kdrained kn').
+    Proof.
+      destruct norm_queue as [ND [EQ [X' [Bd [Sf Qt]]]]].
+      destruct (settle_now_watches C r) as [R HR]. destruct (HR k) as [A [B D]]. destruct (HR (kdrained k')) as [A' [B' D']].
+      pose proof HW as [[[Hi [Hd Hb]] [[J1 J2] J3]] Hm H0 Hp].
+      assert (Wkn : k_watches kn = filter (fun w => negb (memN (kw_wd w) R)) (k_watches k)) by exact A.
+      assert (E1 : fst (settle_now C r (kdrained k')) = rn) by (apply settle_now_fst).
+      assert (E2' : settle_now C rn (kdrained kn') = (rn, kdrained kn')) by (apply settle_now_idle; apply rn_idle).
+      assert (Wa : k_watches (snd (settle_now C r (kdrained k'))) = k_watches kn').
+      { rewrite A'. cbn [kdrained k_watches]. rewrite (kx_watches _ _ _ X').
+        unfold inW, Wl, wds. rewrite Wkn. apply filter_R_inW. intros w Hw. eapply kernel_op_watches_sub. exact Hw. }
+      right. split; [|split; [|split]].
+      - split; [rewrite E1, E2'; reflexivity|]. rewrite E2'. cbn [snd]. apply ksame_intro.
+        + cbn [kdrained k_watches]. symmetry. exact Wa.
+        + intros w Hw. rewrite A' in Hw. apply filter_In in Hw as [Hw _]. cbn [kdrained k_watches] in Hw.
+          apply (allmask_kernel_op M k t o Hm). exact Hw.
+        + cbn [kdrained k_next_wd]. rewrite B'. cbn [kdrained k_next_wd]. apply (kx_wd _ _ _ X').
+        + cbn [kdrained k_next_cookie]. rewrite D'. cbn [kdrained k_next_cookie]. apply (kx_cookie _ _ _ X').
+      - exact Sf.
+      - intros e _. apply matching_idle. apply rn_idle.
+      - intros wd Hdead. unfold dead in Hdead. apply andb_true_iff in Hdead as [Hn Hlt]. apply negb_true_iff in Hn. apply N.ltb_lt in Hlt.
+        destruct HT as [T1 T2].
+        assert (Hnw : forall w, In w (k_watches kn') -> kw_wd w <> wd).
+        { intros w Hw Heq. rewrite (kx_watches _ _ _ X') in Hw. apply filter_In in Hw as [_ Hw]. cbn beta in Hw. rewrite Heq in Hw.
+          rewrite Hw in Hn. discriminate. }
+        assert (Hnp : ~ In wd (map fst (pfw rn))).
+        { intros Hin. apply T1 in Hin. apply memN_in in Hin. change (inW wd = true) in Hin. rewrite Hin in Hn. discriminate. }
+        assert (Hnv : ~ In wd (map snd (wfp rn))).
+        { intros Hin. apply T2 in Hin. apply memN_in in Hin. change (inW wd = true) in Hin. rewrite Hin in Hn. discriminate. }
+        rewrite E1, E2'. cbn [fst snd]. split.
+        + split; [rewrite B'; cbn [kdrained k_next_wd]; unfold k'; rewrite kernel_op_next_wd; exact Hlt|].
+          split; [rewrite Wa; exact Hnw | split; assumption].
+        + split; [cbn [kdrained k_next_wd]; rewrite (kx_wd _ _ _ X'); unfold k'; rewrite kernel_op_next_wd; exact Hlt|].
+          split; [exact Hnw | split; assumption].
+    Qed.
+
+    Lemma norm_sel :
+      (forall e, In e (k_queue k') -> live inW e = false ->
+                 dead (k_wd e) = true \/ (structural (c_recursive C) (k_mask e) = false /\ (fun _ : N => true) (k_mask e) = false)) /\
+      shapeP C (k_queue k').
+    Proof.
+      destruct norm_queue as [ND [EQ [X' [Bd [Sf Qt]]]]]. split.
+      - intros e He Hl. left. unfold dead. unfold live in Hl. rewrite Hl. cbn [negb andb]. apply N.ltb_lt. apply Bd. exact He.
+      - apply kernel_op_shape. exact Qt.
+    Qed.
+
+    (* THE REAL READ AGAINST THE NORMAL READ, both directions *)
+    Theorem norm_fwd r1 k1 raws :
+      read_batch C t' (r, kdrained k', []) (k_queue k') = Done (r1, k1, raws) ->
+      exists rn1 kn1, read_batch C t' (rn, kdrained kn', []) (k_queue kn') = Done (rn1, kn1, raws) /\ E2 C r1 k1 rn1 kn1.
+    Proof.
+      intros H. destruct norm_queue as [ND [EQ _]]. destruct norm_sel as [Hdel Hsh].
+      destruct (inert C (fun _ => true) (live inW) dead (fun _ => conj eq_refl eq_refl) t' (k_queue k') r (kdrained k') rn (kdrained kn')
+                      [] r1 k1 raws Hdel (fun _ _ _ => eq_refl) Hsh norm_inv H) as [rn1 [kn1 [Hr HE]]].
+      exists rn1, kn1. split; [|exact HE]. rewrite EQ. cbn [filter] in Hr. rewrite filter_tt in Hr. exact Hr.
+    Qed.
+
+    Theorem norm_bwd (Hfix : c_fix_moveout C = true) rn1 kn1 raws :
+      read_batch C t' (rn, kdrained kn', []) (k_queue kn') = Done (rn1, kn1, raws) ->
+      exists r1 k1 raws', read_batch C t' (r, kdrained k', []) (k_queue k') = Done (r1, k1, raws').
+    Proof.
+      intros H. destruct norm_queue as [ND [EQ _]]. destruct norm_sel as [Hdel Hsh]. rewrite EQ in H.
+      eapply (inert_back C (fun _ => true) (live inW) dead (fun _ => conj eq_refl eq_refl) t' Hfix (k_queue k') r (kdrained k')
+                         rn (kdrained kn') [] rn1 kn1 raws Hdel (fun _ _ _ => eq_refl) Hsh norm_inv). exact H.
+    Qed.
+
+    (* the invariant of the world is kept *)
+    Theorem wi_step r1 k1 raws :
+      read_batch C t' (r, kdrained k', []) (k_queue k') = Done (r1, k1, raws) -> wi r1 k1.
+    Proof.
+      intros H. pose proof HW as [[Hk [J J3]] Hm H0 Hp].
+      assert (CB : (forall x, In x (k_queue k') -> k_cookie x < k_next_cookie k') /\ k_next_cookie k <= k_next_cookie k').
+      { apply kernel_op_cookie_bound; [|exact H0]. intros x Hx. destruct (J3 x Hx) as [_ Hc]. rewrite Hc. exact H0. }
+      destruct CB as [CB1 CB2].
+      assert (NC : k_next_cookie k1 = k_next_cookie k').
+      { apply (cl_read_batch C (fun kk => k_next_cookie kk = k_next_cookie k')
+                 (fun kk tt pp kk' wd Hk0 E => eq_trans (cookie_add _ _ _ _ _ _ E) Hk0)
+                 (fun kk wd Hk0 => eq_trans (cookie_rm kk wd) Hk0) t' (k_queue k') r (kdrained k') [] r1 k1 raws eq_refl H). }
+      constructor.
+      - eapply jk_read_batch; [|exact H]. apply jk_drained. apply kwf_kernel_op. exact Hk.
+      - apply (cl_read_batch C (allmask M) (fun kk tt pp kk' wd Ha E => allmask_add M _ _ _ _ _ Ha E) (allmask_rm M)
+                 t' (k_queue k') r (kdrained k') [] r1 k1 raws (allmask_kernel_op M k t o Hm) H).
+      - rewrite NC. lia.
+      - intros c p Ep. rewrite NC. destruct (read_batch_pend_src C _ _ _ _ _ _ _ _ H) as [X|[X|[e [p' [He X]]]]].
+        + congruence.
+        + rewrite X in Ep. specialize (Hp c p Ep). lia.
+        + rewrite X in Ep. inversion Ep; subst. apply CB1. exact He.
+    Qed.
+  End Step.
+End World.
